@@ -44,7 +44,7 @@ def gen_val(rng):
         return {"k": "none"}
     if r < 0.34:
         return {"k": "str", "v": rng.choice(["xyz", "a", "", "hello world"])}
-    elems = [rng.choice([0, 1, 2, 3, 1, "s", "tt", None, 2.5]) for _ in range(n)]
+    elems = [rng.choice([0, 1, 2, 3, 1, "s", "tt", None, 2.5, 1.0, True, 0.0, False, "-0.0", 2.0]) for _ in range(n)]
     if r < 0.6:
         return {"k": "list", "v": elems}
     if r < 0.75:
@@ -54,8 +54,15 @@ def gen_val(rng):
     return {"k": "ndarray", "v": [rng.randint(0, 4) for _ in range(n)]}
 
 
+def _el(v):
+    return -0.0 if v == "-0.0" else v
+
+
 def decode(spec):
     k = spec["k"]
+    if k in ("list", "tuple"):
+        vals = [_el(v) for v in spec["v"]]
+        return vals if k == "list" else tuple(vals)
     if k in ("int", "float", "str"):
         return spec["v"]
     if k == "none":
@@ -79,7 +86,9 @@ def as_list(spec):
         return [None]
     if k == "range":
         return list(range(int(spec["v"])))
-    return list(spec["v"])
+    if k == "ndarray":
+        return list(np.array(spec["v"], dtype=np.int64))      # iterating the declared array yields numpy scalars
+    return [_el(v) for v in spec["v"]]
 
 
 def generate(rng, tier):
@@ -120,10 +129,13 @@ def product(decl):
 
 
 def eq(a, b):
+    """The combination holds the declared value itself: same type, same value, same sign of zero (1 / 1.0 / True differ)."""
     if a is None or b is None:
         return a is b
+    if type(a) is not type(b):
+        return False
     try:
-        return bool(a == b) and (isinstance(a, str) == isinstance(b, str))
+        return bool(a == b) and repr(a) == repr(b)
     except Exception:
         return False
 
